@@ -284,6 +284,35 @@ pub fn hyrax_plist_short(cfg: &Cfg) -> Verdict {
     verdict(r, "Hyrax proof list shorter than the commitment list", false)
 }
 
+/// Any scheme whose single-point proof is a list with one entry per polynomial (Hyrax, Ligero, Brakedown):
+/// the list is shorter than the commitment list (last entry dropped, or empty) and the claim without a proof
+/// entry is false.
+pub fn plist_short<S: Sch, T: Clone>(cfg: &Cfg, empty: bool) -> Verdict
+where
+    S::PC: PolynomialCommitment<SF, S::P, Proof = Vec<T>>,
+{
+    let delta = sym_nonzero("delta");
+    let mut w = match catch(|| build::<S>(cfg)) {
+        Ok(Ok(w)) => w,
+        _ => return Verdict::Discard("honest phase failed".into()),
+    };
+    let sp0 = sponge(cfg, 1);
+    let (mut sp_p, mut sp_v) = (sp0.clone(), sp0.clone());
+    let mut proof: Vec<T> = match catch(|| w.open(&[0, 1], 0, &mut sp_p)) {
+        Ok(Ok(p)) => p,
+        _ => return Verdict::Discard("honest phase failed".into()),
+    };
+    if empty {
+        proof.clear();
+    } else {
+        proof.pop();
+    }
+    let pt = w.points[0].1.clone();
+    let vals = vec![w.lps[0].evaluate(&pt), w.lps[1].evaluate(&pt) + delta];
+    let r = catch(|| w.check(&[0, 1], &pt, vals, &proof, &mut sp_v));
+    verdict(r, if empty { "empty per-polynomial proof list" } else { "per-polynomial proof list shorter than the commitment list" }, false)
+}
+
 /// Batched form: one polynomial opened at several points; every claimed value carries a free error term and
 /// the witness of every proof but the first is shifted by a free multiple of the public generator. The same
 /// attack parameters are applied in two worlds that differ only in the SRS trapdoor, and each world's
